@@ -45,7 +45,8 @@ class State:
         self.heap0: Dict[str, z3.ExprRef] = {}  # initial arrays (shared by all forks)
         self.pc: List[z3.BoolRef] = []
         self.ghost: Dict[str, Val] = {}
-        self.alloc0 = z3.Int("alloc0")
+        self.alloc0 = z3.Int("alloc0")  # allocation bound at function entry (constant)
+        self.alloc_base = self.alloc0  # current symbolic base; refs handed out are alloc_base + k
         self.nalloc = 0
         self.events: List[Dict[str, Any]] = []
         self.notes: List[str] = []
@@ -68,6 +69,7 @@ class State:
         s.pc = list(self.pc)
         s.ghost = dict(self.ghost)
         s.alloc0 = self.alloc0
+        s.alloc_base = self.alloc_base
         s.nalloc = self.nalloc
         s.events = list(self.events)
         s.notes = list(self.notes)
@@ -115,12 +117,19 @@ class State:
                 self.written_cells.setdefault(field, []).append(None)
 
     def alloc_bound(self):
-        return self.alloc0 + self.nalloc
+        return self.alloc_base + self.nalloc
 
     def new_ref(self):
-        r = self.alloc0 + self.nalloc
+        r = self.alloc_base + self.nalloc
         self.nalloc += 1
         return z3.simplify(r)
+
+    def bump_alloc(self) -> None:
+        """An opaque callee may have allocated any number of objects."""
+        nb = fresh("alloc", z3.IntSort())
+        self.pc.append(nb >= self.alloc_bound())
+        self.alloc_base = nb
+        self.nalloc = 0
 
     def assume(self, f) -> None:
         if z3.is_true(f):
